@@ -459,6 +459,13 @@ def bigcount_builds(tabs, rng, idents=None):
                 b = build(tabs, ident, rng, maxcount=0, force_counts={ck: want})
                 if b is not None and len(b.payload) <= 1023:
                     out.append(b)
+        if ident == "4076_201" and "IDF037" in tabs.DF and "IDF038" in tabs.DF:
+            # harmonic layers of every shape: degree above / equal to / below the order, the 4-bit maxima (153 cosine coefficients:
+            # three-digit indices), several layers with the same and with different shapes is left to the random builds
+            for nl, deg, order in ((0, 2, 0), (1, 3, 1), (0, 9, 5), (0, 15, 0), (0, 15, 15), (0, 13, 13), (0, 14, 3), (0, 0, 2), (1, 1, 3), (0, 0, 15), (2, 4, 4)):
+                b = build(tabs, ident, rng, maxcount=0, force_counts={"IDF035": nl, "IDF037": deg, "IDF038": order})
+                if b is not None and len(b.payload) <= 1023:
+                    out.append(b)
     return out
 
 
